@@ -48,7 +48,8 @@ func modularTypes() []*openfgav1.TypeDefinition {
 	}
 	return []*openfgav1.TypeDefinition{
 		mk("user", "", "", nil),
-		mk("zebra", "", "", map[string][2]string{"own": {"", ""}}),
+		// a type WITHOUT module inside a modular model whose relations were contributed by modules (extensions)
+		mk("zebra", "", "", map[string][2]string{"own": {"", ""}, "zed": {"", ""}, "admin": {"audit", "a.fga"}, "banned": {"abuse", "b.fga"}}),
 		mk("doc", "core", "core.fga", map[string][2]string{"owner": {"", ""}, "zulu": {"", ""}, "alpha": {"wiki", "wiki.fga"}, "beta": {"audit", "z.fga"}, "gamma": {"audit", "a.fga"}}),
 		mk("org", "core", "a-first.fga", map[string][2]string{"member": {"", ""}}),
 		mk("app", "apps", "apps.fga", nil),
@@ -170,7 +171,7 @@ func TestBoundedC14Modular(t *testing.T) {
 
 // checkDocumentedOrder: unattributed first, then by module, file, name - for types, relations of doc, conditions.
 func checkDocumentedOrder(r *boundedReport, dsl string) {
-	var types, docRels, conds []string
+	var types, docRels, zebraRels, conds []string
 	cur := ""
 	for _, l := range strings.Split(dsl, "\n") {
 		t := strings.TrimSpace(l)
@@ -180,6 +181,8 @@ func checkDocumentedOrder(r *boundedReport, dsl string) {
 			types = append(types, cur)
 		case strings.HasPrefix(t, "define ") && cur == "doc":
 			docRels = append(docRels, strings.SplitN(strings.TrimPrefix(t, "define "), ":", 2)[0])
+		case strings.HasPrefix(t, "define ") && cur == "zebra":
+			zebraRels = append(zebraRels, strings.SplitN(strings.TrimPrefix(t, "define "), ":", 2)[0])
 		case strings.HasPrefix(t, "condition "):
 			conds = append(conds, strings.SplitN(strings.TrimPrefix(t, "condition "), "(", 2)[0])
 		}
@@ -189,6 +192,9 @@ func checkDocumentedOrder(r *boundedReport, dsl string) {
 	}
 	if got, want := strings.Join(docRels, ","), "owner,zulu,gamma,beta,alpha"; got != want {
 		r.violation("documented-order/relations", "doc", "relations of doc appear as %s, documented order is %s", got, want)
+	}
+	if got, want := strings.Join(zebraRels, ","), "own,zed,banned,admin"; got != want {
+		r.violation("documented-order/relations", "zebra", "relations of the unattributed type zebra appear as %s, documented order is %s", got, want)
 	}
 	if got, want := strings.Join(conds, ","), "zc,ac"; got != want {
 		r.violation("documented-order/conditions", "conditions", "conditions appear as %s, documented order is %s", got, want)
